@@ -187,11 +187,11 @@ INSTANCE_VALUES = [
 ]
 
 
-def schema_text(name, policy, fields):
-    lines = [f"==={name}===", "META:", "  TYPE::SCHEMA", '  VERSION::"1.0.0"', "  STATUS::ACTIVE", "---", "POLICY:", '  VERSION::"1.0"',
-             f"  UNKNOWN_FIELDS::{policy}", "---", "FIELDS:"]
-    for fname, chain in fields:
-        lines.append(f'  {fname}::["ex"∧{"∧".join(chain)}]')
+def schema_text(name, policy, fields, policy_last=False):
+    head = [f"==={name}===", "META:", "  TYPE::SCHEMA", '  VERSION::"1.0.0"', "  STATUS::ACTIVE", "---"]
+    pol = ["POLICY:", '  VERSION::"1.0"', f"  UNKNOWN_FIELDS::{policy}"]
+    fld = ["FIELDS:"] + [f'  {fname}::["ex"∧{"∧".join(chain)}]' for fname, chain in fields]
+    lines = head + (fld + ["---"] + pol if policy_last else pol + ["---"] + fld)  # (the block order of a schema document is free)
     lines.append("===END===")
     return "\n".join(lines) + "\n"
 
@@ -258,7 +258,7 @@ def check_doc(case, root: str):
     os.makedirs(sdir, exist_ok=True)
     spath = os.path.join(sdir, name.lower() + ".oct.md")
     with open(spath, "w", encoding="utf-8") as fh:
-        fh.write(schema_text(name, policy, fields))
+        fh.write(schema_text(name, policy, fields, case.get("policy_last", False)))
     itext = instance_text(name, [(k, src) for k, (src, v) in assigns])
     fails = []
     old = os.getcwd()
@@ -286,13 +286,13 @@ def check_doc(case, root: str):
                     continue
                 if not any(g[1] == f for g in got_e):
                     fails.append((f"C08:unlisted:doc:{view}:missing-error:{kindw}:{policy if kindw == 'unknown' else ''}",
-                                  f"{view}: no error names field {f!r} ({kindw}); got errors={sorted(got_e)} warnings={sorted(got_w)} | schema={schema_text(name, policy, fields)!r} | instance={itext!r}"))
+                                  f"{view}: no error names field {f!r} ({kindw}); got errors={sorted(got_e)} warnings={sorted(got_w)} | schema={schema_text(name, policy, fields, case.get('policy_last', False))!r} | instance={itext!r}"))
             for g in sorted(got_e):
                 if g[1] in unasserted:
                     continue
                 if not any(f == g[1] for _, f in want_e):
                     fails.append((f"C08:unlisted:doc:{view}:unexpected-error:{g[0]}:{policy}",
-                                  f"{view}: error {g} on a field the documented semantics accepts; want errors={sorted(want_e)} | schema={schema_text(name, policy, fields)!r} | instance={itext!r}"))
+                                  f"{view}: error {g} on a field the documented semantics accepts; want errors={sorted(want_e)} | schema={schema_text(name, policy, fields, case.get('policy_last', False))!r} | instance={itext!r}"))
             for kindw, f in sorted(want_w):
                 if not any(g[1] == f for g in got_w):
                     fails.append((f"C08:unlisted:doc:{view}:missing-warning", f"{view}: WARN policy gives no warning for unknown field {f!r}; got {sorted(got_w)} {sorted(got_e)}"))
@@ -307,7 +307,7 @@ def check_doc(case, root: str):
                 want_status = "INVALID" if blocking else "VALIDATED"
                 if status != want_status:
                     fails.append((f"C08:unlisted:doc:{view}:status:{policy}:{status}",
-                                  f"{view}: validation_status={status}, documented semantics give {want_status} (errors {sorted(want_e)}, warnings {sorted(want_w)}) | schema={schema_text(name, policy, fields)!r} | instance={itext!r}"))
+                                  f"{view}: validation_status={status}, documented semantics give {want_status} (errors {sorted(want_e)}, warnings {sorted(want_w)}) | schema={schema_text(name, policy, fields, case.get('policy_last', False))!r} | instance={itext!r}"))
 
         doc = parse(itext)
         v = Validator(schema=None)
@@ -338,8 +338,8 @@ def doc_strategy():
     pair = hs.tuples(hs.sampled_from(FIELD_NAMES + ["EXTRA", "Other_1"]), hs.integers(0, len(INSTANCE_VALUES) - 1))
     # three in four instances have unique keys; the fourth may repeat declared and unknown fields
     assigns = hs.one_of(*[hs.lists(pair, min_size=0, max_size=5, unique_by=lambda t: t[0])] * 3, hs.lists(pair, min_size=2, max_size=6))
-    return hs.builds(lambda n, p, f, a: {"kind": "doc", "name": n, "policy": p, "fields": [list(x) for x in f], "assigns": [list(x) for x in a]},
-                     hs.sampled_from(["GEN_SCHEMA", "WIDGET", "AB_C9"]), hs.sampled_from(["REJECT", "WARN", "IGNORE"]), fields, assigns)
+    return hs.builds(lambda n, p, f, a, pl: {"kind": "doc", "name": n, "policy": p, "fields": [list(x) for x in f], "assigns": [list(x) for x in a], "policy_last": pl},
+                     hs.sampled_from(["GEN_SCHEMA", "WIDGET", "AB_C9"]), hs.sampled_from(["REJECT", "WARN", "IGNORE"]), fields, assigns, hs.booleans())
 
 
 def shard_docs(ctx: Ctx, sh: int, nshards: int, n: int) -> Stats:
